@@ -152,6 +152,28 @@ def run_shard(rec, tier, seed, shard, nshards):
             rec.check(np.array_equal(np.asarray(s2.treatment_ids), np.asarray(s.treatment_ids)[sel]) and np.array_equal(np.asarray(s2.sample_ids), np.asarray(s.sample_ids)[sel]), "C01/mapping/ids-differ-from-superset", "ids under a supplied mapping differ from the superset's ids on the same rows", witness(kw2))
             if ci < 4 and shard == 0:
                 rec.sample({"kind": "superset", "kept_rows": int(sel.sum()), "of": int(n), "mapping_rows": int(len(tm[0]))})
+            if rng.random() < 0.5:
+                # the caller goes on working with ITS tables (new units, another numbering for the next screen): the
+                # screen built from them a moment ago keeps decoding its rows to what they were
+                tm_then = tuple(np.array(a, copy=True) for a in tm)
+                sm_then = tuple(np.array(a, copy=True) for a in sm)
+                ids_then = (np.array(s2.treatment_ids, copy=True), np.array(s2.sample_ids, copy=True))
+                try:
+                    tm[1][:] = tm[1] * 1000.0
+                    tm[2][:] = tm[2][::-1].copy()
+                    sm[1][:] = sm[1][::-1].copy()
+                    tm[0][:] = "zz"
+                    sm[0][:] = "zz"
+                except ValueError:
+                    rec.count("caller_tables_read_only")
+                else:
+                    rec.count("caller_tables_rewritten_after_construction")
+                    rec.check(np.array_equal(np.asarray(s2.treatment_ids), ids_then[0]) and np.array_equal(np.asarray(s2.sample_ids), ids_then[1]), "C01/mapping/aliases-callers-arrays", "the ids of a screen changed when the caller rewrote the mapping tables it had passed in", witness(kw2))
+                    got_t, got_s = s2.treatment_mapping, s2.sample_mapping
+                    same = all(kit.str_equal(a, b) if np.asarray(a).dtype.kind in "USO" else np.array_equal(np.asarray(a), np.asarray(b)) for a, b in zip(tuple(got_t) + tuple(got_s), tm_then + sm_then))
+                    rec.check(same, "C01/mapping/aliases-callers-arrays", "the mappings of a screen changed when the caller rewrote the tables it had passed in", witness(kw2))
+                    oracle(rec, s2, kw2, tm_then, sm_then)
+                tm, sm = tm_then, sm_then
 
             # ---- rejection cases
             ids2 = np.asarray(s2.treatment_ids)
